@@ -40,7 +40,7 @@ LEVEL_TEXT = ("Schedules are sampled, not enumerated: every generated schedule "
 LEVEL_NOTE = ("Sampling of a very large schedule space (3 actors, ~10-40 "
               "operations); the scheduler serialises operations, so only "
               "sequentially consistent interleavings are explored.")
-REGISTERED = False
+REGISTERED = True
 NONTRIVIAL_FLOOR = {"quick": 300, "thorough": 20000}
 
 HOSTS = ("ours", "other", "localhost")
